@@ -184,6 +184,11 @@ def classify_uses(body, name):
                 uses.add("map")
             elif parent is not None and parent.get("k") == "mcall" and pkey == "recv" and parent.get("name") in ("is_some", "is_none"):
                 uses.add("test")
+            elif parent is not None and parent.get("k") == "mcall" and (
+                    (pkey == "args" and parent.get("name") in ("or", "xor", "and", "unwrap_or", "get_or_insert", "zip")) or
+                    (pkey == "recv" and parent.get("name") in ("and", "xor", "filter", "and_then", "take_if"))):
+                # Option combinators that can discard this value although it is present: a.or(b) forgets b when a is Some, a.and(b) forgets a, …
+                uses.add("lossy:" + parent["name"])
             else:
                 uses.add("whole")
             return
@@ -210,7 +215,7 @@ def r52(ctx, fx):
     rid = ctx.rule("R5.2", "in every `map(sequence, closure)` of the parser: an element wrapped in ws/mws (a Located with leading trivia) that is bound by the "
                    "closure is moved whole into the AST, mapped (map/map_into/clone keep the trivia) or has its `.trivia` read — never used through "
                    "`.data`/`.span` only; an element bound to `_` consumes constant text without trivia, or nothing")
-    n = 0
+    n = n2 = 0
     for f in sorted(fx.all_fns("mos_core"), key=lambda f: f.path):
         if f.kind != "fn" or not f.path.startswith("mos_core::parser::") or "::tests::" in f.path or "::testing" in f.path:
             continue
@@ -247,13 +252,32 @@ def r52(ctx, fx):
                     if p.get("k") != "bind":
                         continue
                     if not (has_trivia(e) or inner_trivia(e)):
+                        # an element without leading trivia of its own (a nonterminal, a token): it still stands for source text, which must reach the tree
+                        if consumes_nothing(e):
+                            continue
+                        uses = classify_uses(clo["body"], p["name"])
+                        lossy = sorted(u for u in uses if u.startswith("lossy:"))
+                        n2 += 1
+                        ctx.inst(rid, k, sample={"fn": f.path, "element": grammar.short(e)[:60], "bound": p["name"], "uses": sorted(uses)}, nontrivial=bool(lossy))
+                        if not uses:
+                            ctx.finding(rid, k, "`%s` (text matched by `%s`) is bound and never used in %s: the parser accepts that text and drops it" % (
+                                p["name"], grammar.short(e)[:60], f.path.rsplit("::", 1)[1]), "%s:%s" % (f.file, clo.get("ln")))
+                        elif lossy and not (uses & {"whole", "map", "data", "other-field"}):
+                            ctx.finding(rid, k, "`%s` (text matched by `%s`) only reaches the syntax tree through `Option::%s`, which discards it when the other operand "
+                                        "is present: the parser accepts that text and no token, trivia or diagnostic accounts for it" % (
+                                            p["name"], grammar.short(e)[:60], lossy[0].split(":")[1]), "%s:%s" % (f.file, clo.get("ln")))
                         continue
                     n += 1
                     uses = classify_uses(clo["body"], p["name"])
                     ctx.inst(rid, k, sample={"fn": f.path, "element": grammar.short(e)[:60], "bound": p["name"], "uses": sorted(uses)})
+                    lossy = sorted(u for u in uses if u.startswith("lossy:"))
                     if not uses:
                         ctx.finding(rid, k, "`%s` (text and trivia matched by `%s`) is never used in %s" % (p["name"], grammar.short(e)[:60], f.path.rsplit("::", 1)[1]),
                                     "%s:%s" % (f.file, clo.get("ln")))
+                    elif lossy and not (uses & {"whole", "map"}):
+                        ctx.finding(rid, k, "`%s` (text matched by `%s`) only reaches the syntax tree through `Option::%s`, which discards it when the other operand is "
+                                    "present: the parser accepts that text and no token, trivia or diagnostic accounts for it" % (
+                                        p["name"], grammar.short(e)[:60], lossy[0].split(":")[1]), "%s:%s" % (f.file, clo.get("ln")))
                     elif not (uses & {"whole", "map", "trivia"}):
                         ctx.finding(rid, k, "`%s` carries leading trivia (`%s`) but only its %s is used in %s: whitespace/comments in front of it vanish from the tree" % (
                             p["name"], grammar.short(e)[:60], "/".join(sorted(uses)), f.path.rsplit("::", 1)[1]), "%s:%s" % (f.file, clo.get("ln")))
